@@ -7,23 +7,29 @@
    harness maps them to strings whose order is the numeric order).  The text template that turns
    an identity into a synthetic policy is external: the world carries, per name, the policy entry
    the implementation generated ([w_synth_svc], [w_synth_node]; its ID is an injective function
-   of the rules, its ModifyIndex is 0).  Templated policies are not modelled.  No proofs here. *)
+   of the rules, its ModifyIndex is 0).  Templated policies (builtin/service, builtin/node with a name; builtin/dns without) are
+   deduplicated as ACLTemplatedPolicies.Deduplicate does: first occurrence of each (template,
+   variables), Datacenters of the later ones ignored.  No proofs here. *)
 From Verif Require Import Base.Prelude.
 From Verif Require Import ACL.Model.
 
 Record sident := SIdent { si_name : N; si_dcs : list N }.   (* Datacenters = [] : every datacenter *)
 Record nident := NIdent { ni_name : N; ni_dc : N }.
 
+Record tpol := TPol { tp_tmpl : N; tp_name : N; tp_dcs : list N }.   (* name 0 for templates without variables *)
+
 Record wpolicy := WPolicy { wp_entry : pentry; wp_dcs : list N }.
-Record wrole := WRole { ro_pols : list N; ro_sis : list sident; ro_nis : list nident }.
-Record wtoken := WToken { tk_pols : list N; tk_roles : list N; tk_sis : list sident; tk_nis : list nident }.
+Record wrole := WRole { ro_pols : list N; ro_sis : list sident; ro_nis : list nident; ro_tps : list tpol }.
+Record wtoken := WToken { tk_pols : list N; tk_roles : list N; tk_sis : list sident; tk_nis : list nident;
+                          tk_tps : list tpol }.
 
 Record world := World {
   w_dc : N;                                  (* the resolver's datacenter *)
   w_pols : list (N * wpolicy);               (* policy ID -> policy *)
   w_roles : list (N * wrole);                (* role ID -> role *)
   w_synth_svc : list (N * pentry);           (* service name -> its synthetic policy *)
-  w_synth_node : list (N * pentry) }.        (* node name -> its synthetic policy *)
+  w_synth_node : list (N * pentry);          (* node name -> its synthetic policy *)
+  w_synth_tp : list ((N * N) * pentry) }.    (* (template, name) -> its synthetic policy *)
 
 (* sort.Strings *)
 Fixpoint insert_n (x : N) (l : list N) : list N :=
@@ -65,9 +71,16 @@ Fixpoint merge_sorted (a : list N) : list N -> list N :=
 
 (* one iteration of the loop of ACLServiceIdentities.Deduplicate; the map keeps first-insertion
    order here (Go: unspecified, see C08_order_independent) *)
+Definition is_nil {A} (l : list A) : bool := match l with [] => true | _ => false end.
+
+(* the Datacenters of the merged entry: an empty list means "every datacenter", so when either
+   side is unscoped the merged identity is unscoped (commit 0b8ae30); otherwise the sorted union *)
+Definition merge_dcs (new old : list N) : list N :=
+  if is_nil old || is_nil new then [] else merge_sorted (sort_n new) old.
+
 Definition sis_step (m : list (N * list N)) (s : sident) : list (N * list N) :=
   match alookup N.eqb (si_name s) m with
-  | Some dcs => aset N.eqb (si_name s) (merge_sorted (sort_n (si_dcs s)) dcs) m
+  | Some dcs => aset N.eqb (si_name s) (merge_dcs (si_dcs s) dcs) m
   | None => aset N.eqb (si_name s) (sort_n (si_dcs s)) m
   end.
 
@@ -84,6 +97,20 @@ Fixpoint dedup_nis_from (seen : list nident) (l : list nident) : list nident :=
   end.
 Definition dedup_nis (l : list nident) : list nident := dedup_nis_from [] l.
 
+Definition tkey := (N * N)%type.
+Definition tkey_eqb (a b : tkey) : bool := N.eqb (fst a) (fst b) && N.eqb (snd a) (snd b).
+Definition tp_key (t : tpol) : tkey := (tp_tmpl t, tp_name t).
+
+(* ACLTemplatedPolicies.Deduplicate: the first occurrence of each (template name, variables) is
+   kept as it is; the Datacenters of the dropped ones play no role *)
+Fixpoint dedup_tps_from (seen : list tkey) (l : list tpol) : list tpol :=
+  match l with
+  | [] => []
+  | x :: l' => if existsb (tkey_eqb (tp_key x)) seen then dedup_tps_from seen l'
+               else x :: dedup_tps_from (tp_key x :: seen) l'
+  end.
+Definition dedup_tps (l : list tpol) : list tpol := dedup_tps_from [] l.
+
 (* one policy of filterPoliciesByScope *)
 Definition in_scope (dc : N) (dcs : list N) : bool :=
   match dcs with [] => true | _ => existsb (N.eqb dc) dcs end.
@@ -96,18 +123,21 @@ Definition roles_of (w : world) (t : wtoken) : list wrole :=
 
 (* ACLResolver.resolvePoliciesForIdentity *)
 Definition policies_for_identity (w : world) (t : wtoken) : list pentry :=
-  match tk_pols t, tk_roles t, tk_sis t, tk_nis t with
-  | [], [], [], [] => []          (* only the default policy is in effect *)
-  | _, _, _, _ =>
+  match tk_pols t, tk_roles t, tk_sis t, tk_nis t, tk_tps t with
+  | [], [], [], [], [] => []          (* only the default policy is in effect *)
+  | _, _, _, _, _ =>
       let roles := roles_of w t in
       let pids := dedupe_ids (tk_pols t ++ flat_map ro_pols roles) in
       let sis := dedup_sis (tk_sis t ++ flat_map ro_sis roles) in
       let nis := dedup_nis (tk_nis t ++ flat_map ro_nis roles) in
+      let tps := dedup_tps (tk_tps t ++ flat_map ro_tps roles) in
       let synthetic :=
           flat_map (fun e => match alookup N.eqb (fst e) (w_synth_svc w) with
                              | Some p => [(p, snd e)] | None => [] end) sis
           ++ flat_map (fun n => match alookup N.eqb (ni_name n) (w_synth_node w) with
-                                | Some p => [(p, [ni_dc n])] | None => [] end) nis in
+                                | Some p => [(p, [ni_dc n])] | None => [] end) nis
+          ++ flat_map (fun x => match alookup tkey_eqb (tp_key x) (w_synth_tp w) with
+                                | Some p => [(p, tp_dcs x)] | None => [] end) tps in
       let policies :=
           flat_map (fun id => match alookup N.eqb id (w_pols w) with
                               | Some wp => [(wp_entry wp, wp_dcs wp)] | None => [] end) pids
